@@ -245,7 +245,8 @@ def check(case: Dict[str, Any]) -> Outcome:
             except Exception:
                 out.fail("line-torn-by-a-concurrent-writer", f"not JSON: {ln[:120]!r} ... ({len(ln)} bytes)")
                 return out
-            if isinstance(v_, dict) and v_.get("id") is None and isinstance(v_.get("error"), dict) and v_["error"].get("code") == -32600:
+            if (isinstance(v_, dict) and v_.get("id") is None and isinstance(v_.get("error"), dict) and v_["error"].get("code") == -32600
+                    and not any(strict_eq(v_, w_) for w_ in expected)):  # (an item of the case may itself be a null-id -32600 error)
                 rejections += 1
             else:
                 keep.append(ln)
